@@ -537,7 +537,13 @@ func runReplay(bin, dir string, c replayCase, timeoutS int, scratch string, para
 	}
 	cmd := exec.Command(bin, "-test.run", "^TestVerifReplay$", "-test.v", "-test.timeout", fmt.Sprintf("%ds", timeoutS))
 	cmd.Dir = filepath.Join(repoDir, dir)
-	cmd.Env = append(os.Environ(), "VERIF_REPLAY="+cf)
+	// realisers create their real files under a directory the driver removes
+	// afterwards (a realiser that dropped privileges may be unable to)
+	rtmp := filepath.Join(scratch, "rtmp")
+	os.MkdirAll(rtmp, 0o777)
+	os.Chmod(rtmp, 0o777)
+	os.Chmod(scratch, 0o755)
+	cmd.Env = append(os.Environ(), "VERIF_REPLAY="+cf, "TMPDIR="+rtmp)
 	for k, v := range params {
 		cmd.Env = append(cmd.Env, fmt.Sprintf("VERIF_PARAM_%s=%d", k, v))
 	}
